@@ -34,9 +34,18 @@ CLAIMED = {
  'C16': ("must-pass-through cut of [sender id != 0] before every process.On* invoke in the five DKG handlers, origin analysis of the id lookup (non-zero only below [peer.Name == authenticated name], same table entry), who-may-call table of the protocol methods, provenance of the reply share index and of outgoing shares",
          "Decides that each key-generation handler calls the process service only below [sender id != 0] with the looked-up id, that the lookup yields a non-zero id only as the key of the peer whose configured name equals the authenticated client name (which enters the context in one place, from the verified leaf certificate), that nothing else calls the protocol methods, that the contribution reply is distributionSecrets[sender id] and outgoing shares go to the peer of their own id.",
          "Not decided: nothing further; crypto/tls is trusted for the identity. ", "§5 C16"),
+ 'C17': ("lock-held dataflow for the session-table mutex (guarded-by with callee-assumes-lock), typestate cuts: insert below lookup-not-found, every session use / table write / success return below lookup-success, commit success past both completeness tests and the delete, expiry delete below the timeout comparison; who-may-write table",
+         "Decides the one-per-account lifecycle structurally: every access to the session table and every lookup happens with the table mutex write-held and the mutex is released on every return; prepare inserts only below the lookup's not-found edge and leaves a found session untouched; execute, contribute, commit and abort use the session, change the table or report success only below lookup success (the lookup's error set is exactly {nil, not found}); commit succeeds only past both per-participant completeness tests and after deleting the session, abort after deleting it, the lookup deletes only past the timeout comparison; nothing else writes the table.",
+         "Not decided: that len == participants means exactly the listed participants when a non-listed peer contributes (cooperating peers assumed); wall-clock behaviour. ", "§5 C17"),
  'C19': ("configuration-literal evaluation of the tls.Config reaching credentials.NewTLS -> grpc.Creds -> grpc.NewServer (field table, pool provenance, option-slice tracing), single-server / who-may-call tables for registrations, Serve and handler methods, provenance of the identity context value",
          "Decides that the only gRPC server in production is built with TLS credentials requiring and verifying a client certificate against a fresh pool containing only the configured authority (TLS >= 1.2, no verification overrides), that all registrations and Serve are on that server and handlers have no other caller, and that the identity used for permission decisions is PeerCertificates[0].Subject.CommonName set below HandshakeComplete in exactly one place and read through one helper by every handler.",
          "Not decided: crypto/tls and grpc-go honour the configuration (trusted contract). ", "§5 C19"),
+ 'C12': ("per-atom cuts of the threshold bounds before every generation start, field-flow table of the threshold (request -> prepare -> session -> account), per-iteration cuts in the reply-collection / key-comparison / signature-window loops of the initiator, must-pass-through of the cache insertion after account creation, overlay map rules in the fetcher",
+         "Claimed clauses only (DESIGN.md §5 C12): generation starts only below [n != 0], [t <= n], [n/2 < t]; the checked threshold is the one sent, recorded (never changed) and stored with the account; success is reported only past error-free non-empty commit replies, cyclic pairwise equality of all participants' keys, and recover+verify of every window of t confirmation signatures against the returned key pubKeys[0]; every created account reaches fetcher.AddAccount, which updates both overlay maps under the write lock, and lookups/listing consult the overlay.",
+         "NOT decided (not applicable to static analysis): that shares are consistent with the verification vector, that any t partial signatures combine and fewer do not - Shamir/BLS mathematics inside herumi. ", "§5 C12"),
+ 'C13': ("cuts of the contribution check (same share, same vector, own id, session threshold) before every insertion of a received contribution; cut of [len(vector) == threshold] before every accepting return of the check; commit-only account writes below both completeness tests; initiator ordering cuts (commit start unreachable from any prepare/execute error edge); handler decode-error cuts",
+         "Decides that a received share/vector enters a session only below the contribution check applied to those very values, this instance's id and the session threshold; that the check accepts only vectors of exactly threshold entries (so the threshold-sized aggregate is never indexed out of range: no crash); that the account is written only by commit below one share and one vector per listed participant; that the initiator starts commit messages only past the nil-error edge of every prepare and execute; that undecodable contributions return before the process service.",
+         "Not decided: partial failure during the commit phase (outside the statement); the BLS consistency check itself. ", "§5 C13"),
  'C15': ("typestate dataflow over the gate (PreLock/Lock*/PostLock), mutex pairing dataflow inside the locker, reachability in the module call graph (no re-entry below the dispatch)",
          "Decides that key locks are only requested inside the locker-wide gate, the gate is released on every path, nothing inside the gate or below the dispatch can re-enter the locker, the locker's own creation mutex is paired on every path and released before waiting for a key, and every acquired key is released by defer. These exclude every wait-for cycle (prose argument in DESIGN.md §5 C15).",
          "Not decided: termination of badger operations and third-party signers while locks are held.", "§5 C15"),
